@@ -10,6 +10,7 @@ import (
 	"github.com/frankkopp/FrankyGo/internal/config"
 	"github.com/frankkopp/FrankyGo/internal/movegen"
 	"github.com/frankkopp/FrankyGo/internal/position"
+	"github.com/frankkopp/FrankyGo/internal/uci"
 
 	"github.com/frankkopp/FrankyGo/verif/refchess"
 	"github.com/frankkopp/FrankyGo/verif/sched"
@@ -274,6 +275,11 @@ func expectedAfter(before *refchess.Pos, line string) []*refchess.Pos {
 			}
 		}
 		res = append(res, cur)
+		if !base.Valid() {
+			// a placement that is no chess position (kings missing or doubled, pawns on the back ranks, the side not
+			// to move in check): the parser may reject it (previous position kept) or accept it
+			res = append(res, before)
+		}
 		return res
 	}
 	return []*refchess.Pos{before}
@@ -419,6 +425,13 @@ func c16(tier string, args []string) int {
 		}
 		lines = append(lines, "position startpos moves "+strings.Join(ms, " "))
 	}
+	// every option the engine announces x values of every kind (out of range, not a number, huge, empty)
+	for _, name := range c16OptionNames() {
+		for _, v := range []string{"-1", "0", "1", "65001", "99999999", "99999999999999999999", "x", "true", "false", ""} {
+			l := "setoption name " + name + " value " + v
+			lines = append(lines, strings.TrimSpace(l))
+		}
+	}
 	var cases int64
 	for i, l := range lines {
 		if i%n != shard || run.Expired() {
@@ -451,6 +464,22 @@ func c16(tier string, args []string) int {
 			cases++
 		}
 	}
+	// structurally odd placements (kings missing / doubled / adjacent, pawns on the back ranks, the side not to move in
+	// check, 10 queens): whatever the parser accepts must not crash a following search or move list
+	odd := []string{"8/8/8/8/8/8/8/8 w - - 0 1", "k7/8/8/8/8/8/8/8 w - - 0 1", "8/8/8/8/8/8/8/K7 b - - 0 1", "kk6/8/8/8/8/8/8/K7 w - - 0 1",
+		"k7/8/8/8/8/8/8/KK6 b - - 0 1", "kK6/8/8/8/8/8/8/8 w - - 0 1", "kP6/8/8/8/8/8/8/K7 w - - 0 1", "k7/8/8/8/8/8/8/Kp6 b - - 0 1",
+		"k7/8/8/8/8/8/8/KP6 w - - 0 1", "kp6/8/8/8/8/8/8/K7 b - - 0 1", "k7/8/8/8/8/8/8/K6r b - - 0 1", "k6R/8/8/8/8/8/8/K7 w - - 0 1",
+		"k7/8/8/8/8/8/QQQQQQQQ/KQQ5 w - - 0 1", "k7/pppppppp/pppppppp/8/8/8/8/K7 b - - 0 1", "r3k2r/8/8/8/8/8/8/4K3 w KQkq - 0 1", "4k3/8/8/8/8/8/8/R3K2R b KQ - 0 1"}
+	for _, f := range odd {
+		for _, g := range []string{"go depth 2", "go nodes 50", "position fen " + f + " moves a1a2", "go perft 1"} {
+			pi++
+			if pi%n != shard || run.Expired() || g == "go perft 1" {
+				continue
+			}
+			uciCase(run, []string{"position fen " + f, g}, "odd placement then search")
+			cases++
+		}
+	}
 	for _, a := range sub {
 		for _, b := range sub {
 			pi++
@@ -471,4 +500,24 @@ func c16(tier string, args []string) int {
 		run.Sample(map[string]interface{}{"kind": "uci", "commands": []string{"go depth"}})
 	}
 	return run.FinishWorker()
+}
+
+// c16OptionNames: the option names the engine announces in reply to "uci"
+func c16OptionNames() []string {
+	h := uci.NewUciHandler()
+	var names []string
+	for _, l := range strings.Split(h.Command("uci"), "\n") {
+		f := strings.Fields(l)
+		if len(f) >= 3 && f[0] == "option" && f[1] == "name" {
+			var n []string
+			for _, w := range f[2:] {
+				if w == "type" {
+					break
+				}
+				n = append(n, w)
+			}
+			names = append(names, strings.Join(n, " "))
+		}
+	}
+	return names
 }
